@@ -162,6 +162,9 @@ func msgSkel(m *descriptorpb.DescriptorProto, scope string) *SMsg {
 		if f.TypeName != nil {
 			sf.TypeName = f.GetTypeName()
 		}
+		if sf.JSON == "" {
+			sf.JSON = "-"
+		}
 		if f.OneofIndex != nil && !synthetic[f.GetOneofIndex()] {
 			sf.Oneof = fmt.Sprint(realIdx[f.GetOneofIndex()])
 		}
